@@ -749,6 +749,67 @@ def r01_10(chk, P):
     return n
 
 
+def r01_11(chk, P):
+    chk.rule('R01.11', 'the classification codewords of a residue are read in pass 0 whenever there are partitions to read, whether or '
+             'not any classification has a book (08-residue.tex, packet decode steps 3-12: the only early exit is n_to_read == 0): '
+             'where a decode routine reaches its classification read (vorbis_book_decode on the phrase book) only inside a loop '
+             'bounded by a field of the look-up structure, every function in the slot vorbis_func_residue.look guarantees that '
+             'field >= 1 at its returns (K4 on the look function).  A pass count taken from the highest cascade bit alone is 0 for '
+             'a residue without books: its codewords stay in the packet and the next submap decodes from the wrong bit position')
+    import absint
+    looks = sorted(P.slots.get(('vorbis_func_residue', 'look'), ()))
+    invs = sorted(P.slots.get(('vorbis_func_residue', 'inverse'), ()))
+    chk.require(looks and invs, 'residue look / inverse slots empty')
+    roots = [P.key(P.need(x)) for x in invs]
+    reach = [P.fn[k] for k in sorted(set(roots) | set(P.reachable(roots))) if k in P.fn]
+    guar = {}
+    for ln in looks:
+        L = P.need(ln)
+        A = absint.Analyzer(P, L)
+        A.run()
+        g = {}
+        for (e, env, v) in A.ret_states:
+            if v is not None and (v.nn is False or v.const() == 0):
+                continue
+            c = L.ex[e].get('c')
+            rn = L.ex[L.strip_casts(c[0])] if c else None
+            if rn is None or rn['k'] != 'ref':
+                g = None
+                break
+            pre = f'v{rn["decl"]["id"]}->'
+            for k_, x in env.items():
+                if isinstance(k_, str) and k_.startswith(pre) and isinstance(x, absint.V) and '[' not in k_[len(pre):] and '->' not in k_[len(pre):]:
+                    f = k_[len(pre):]
+                    g[f] = min(g.get(f, x.lo), x.lo) if f in g else x.lo
+        guar[ln] = g
+    n = 0
+    for F in reach:
+        for c in F.calls('vorbis_book_decode'):
+            a = F.ex[c].get('c') or []
+            if not a or 'phrasebook' not in F.s(a[0]):
+                continue
+            fields = set()
+            for cond, pol in common.controlling_conditions(F, c):
+                for q in F.walk(cond):
+                    qn = F.ex[q]
+                    if qn['k'] == 'member' and qn.get('record', '').startswith('vorbis_look_residue') and not qn.get('t', '').endswith('*'):
+                        fields.add(qn['field'])
+            if not fields:
+                n += 1
+                chk.ob('R01.11', F.name, 'classification-read-in-pass-0', True, F.where(c),
+                       'the classification read is not under a condition on the look-up structure')
+                continue
+            for f in sorted(fields):
+                bad = [ln for ln in looks if guar.get(ln) is None or guar[ln].get(f, 0) < 1]
+                n += 1
+                chk.ob('R01.11', F.name, f'classification-read-in-pass-0:{f}>=1', not bad, F.where(c),
+                       (f'`{F.s(c)}` runs only inside a loop bounded by look->{f}, and {bad[0]} can return with {f} = '
+                        f'{guar[bad[0]].get(f, 0) if guar.get(bad[0]) else "?"}: a residue whose cascades are all 0 reads no classification '
+                        f'codeword although the specification reads one per channel and partition group') if bad else
+                       f'look->{f} >= 1 at every return of {looks}')
+    return n
+
+
 def run(chk, P):
     chk.rule('R01.1', 'for every specification section with a bit layout the sequence of field widths in the TeX source '
              '(document order, consecutive duplicates collapsed, computed widths as V) is a linearisation of the reader '
@@ -773,6 +834,8 @@ def run(chk, P):
     chk.floor('R01.9', 2)
     r01_10(chk, P)
     chk.floor('R01.10', 1)
+    r01_11(chk, P)
+    chk.floor('R01.11', 2)
     chk.notes.append(f'R01.2 compared {ncon} table constants')
     chk.trusted += ['clang 14 front end and constant evaluator', 'the specification sources doc/*.tex of the repository are the oracle',
                     'width extraction from the TeX text (engine/spec.py) recognises the phrasings used in the pinned documents; '
